@@ -390,14 +390,14 @@ def verify_config(I, c, fn, specf, cfg):
             st, detail, model = "discharged", "%s | %s" % (real.describe(), notes), None
             if not ok:
                 msg, goal = why if isinstance(why, tuple) else (str(why), None)
-                model, status = model_to_inputs(I, ctx, goal)
-                if status == "sat":
-                    st = "failed"
-                elif status == "unsat":
-                    # the witness query is weaker than the proof query only for structural mismatches
-                    st = "failed"
+                if ok is None:
+                    # the engine cannot compare these values: never a violation
+                    model, st = None, "undecided"
                 else:
-                    st = "undecided"
+                    model, status = model_to_inputs(I, ctx, goal)
+                    # a definite mismatch (goal None: different outcome kind / exception class / shape) on a
+                    # satisfiable path, or a counter-model of the equality goal
+                    st = "failed" if status == "sat" else "undecided"
                 detail = "real %s vs spec %s: %s | %s" % (real.describe(), sp.describe(), msg, notes)
             res.append(Obligation(name, c.target, cfg, st, detail, model, ms=1000 * (time.time() - t0)))
         # extra postconditions on the real outcome
